@@ -295,6 +295,11 @@ func ListToFunc(s *Scope, list List, depth int) Object {
 				if strings.EqualFold("lambda", string(sym)) {
 					lambdaDef := ListToFunc(s, ta, depth+1)
 					lc := s.Eval(lambdaDef, depth).(*Lambda)
+					// The lambda is called where it is written so the
+					// scope of the call is the scope it closes over. The
+					// function made here is kept and evaluated again
+					// later, a closure made now would be stale then.
+					lc.Closure = nil
 					return &Dynamic{
 						Function: Function{
 							Self: lc,
